@@ -4,6 +4,7 @@ import Apko.Model.Layers
   l.group  budget  pkgs  goOut      → impl \t verdict(goOut) \t class
   l.split  groups  walk  goLayers   → impl \t verdict(goLayers) \t class
   l.bytes  …                        → byte-level oracle evaluated by the harness (oracle-go)
+  l.e2e    budget buildOnly diff    → end-to-end oracle evaluated by the harness (oracle-go); class only
 
 encodings (strings hex, lists separated by `;`, fields by `,`, sub-lists by `:`):
   pkgs    name,origin,version,size,rep:rep:…;…
@@ -54,9 +55,11 @@ def permOf (a b : List Text) : Bool :=
 
 /-- the property's demands on a grouping, evaluated on what the Go code returned -/
 def verdictGroup (pkgs : List LPkg) (budget : Int) (go : String) : String × String :=
-  if go = "panic" then ("fail:panic", if budget < 0 then "F10b" else "unlisted")
+  if go = "panic" then ("fail:panic", "unlisted")
   else if go = "err" then
-    (if replacesError pkgs then "pass" else "fail:spurious-error", "unlisted")
+    -- a negative budget (outside the property's quantifier) is rejected; otherwise an error is
+    -- legitimate exactly when some replaces entry cannot be evaluated
+    (if budget < 0 || replacesError pkgs then "pass" else "fail:spurious-error", "unlisted")
   else if !go.startsWith "ok " then ("fail:unparsable", "unlisted")
   else
     let names := parseGroups (go.drop 3).toString
@@ -142,6 +145,11 @@ def handle (args : List String) : Option String :=
     let v := verdictSplit gs w go
     some (implSplit gs w ++ "\t" ++ v ++ "\t" ++ (if v = "pass" then "-" else "unlisted"))
   | "l.bytes" :: _ => some "-\t-\tunlisted"
+  | ["l.e2e", _budget, buildOnly, diff] =>
+    -- class F10c: a build-only repository is configured and the only difference between the flattened
+    -- multi-layer image and the single-layer image is etc/apk/repositories
+    let cls := if buildOnly = "1" && unhexS diff = "etc/apk/repositories".toList then "F10c" else "unlisted"
+    some ("-\t-\t" ++ cls)
   | _ => none
 
 end Apko.Driver.Layers
